@@ -50,6 +50,38 @@ def _model_values(world, model):
     return {k: model_value(model, v) for k, v in world.leaves.items()}
 
 
+def _well_conditioned(values, tables):
+    """Can a model be replayed faithfully with IEEE floats?  No if its magnitudes span more than nine decades or two distinct
+    numbers differ by less than 1e-5 relative (a branch or table lookup then goes the other way under rounding): such a
+    model lies outside A-real and a native run on it says nothing about the symbolic semantics."""
+    nums = [float(x) for x in values.values()] + [float(x) for t in tables.values() for e in t['entries'] for x in (list(e[0]) + [e[1]])]
+    nz = sorted({x for x in nums if x != 0})
+    if not nz:
+        return True
+    mags = [abs(x) for x in nz]
+    if max(mags) > 1e9 * min(mags):
+        return False
+    return all((b - a) > 1e-5 * max(abs(a), abs(b)) for a, b in zip(nz, nz[1:]))
+
+
+def _conditioned_model(c, w):
+    """One extra one-shot query for a model of the path condition whose leaves and model-function values are 0 or within
+    [1e-3, 1e3] (None if there is none within 3 s)."""
+    import z3
+    try:
+        s = z3.Solver()
+        s.set('timeout', 3000)
+        s.add(c.solver.assertions())
+        lo, hi = z3.Q(1, 1000), z3.RealVal(1000)
+        for t in list(c.vars.values()) + [r for _, _, r in w.uf_apps]:
+            s.add(z3.Or(t == 0, z3.And(t >= lo, t <= hi), z3.And(t <= -lo, t >= -hi)))
+        if s.check() == z3.sat:
+            return s.model()
+    except z3.Z3Exception:
+        pass
+    return None
+
+
 def sym_task(task):
     """Explore one (group, cfg) symbolically.  Returns a result dict."""
     global _shim_info
@@ -150,6 +182,19 @@ def sym_task(task):
                 if m is not None:
                     cj = {'values': _model_values(w, m), 'tables': _model_tables(w, m),
                           'expect': [n for n in names if out['clauses'].get(n) == 'unsat']}
+                    # a model that floats cannot replay faithfully (huge dynamic range, near-ties) is replaced by a
+                    # well-conditioned one of the same path if the solver finds one; otherwise it is still run but a
+                    # clause failing on it is counted as "skipped (rounding)", never as a violation
+                    if not _well_conditioned(cj['values'], cj['tables']):
+                        m2 = _conditioned_model(c, w)
+                        if m2 is not None:
+                            cj2 = dict(cj, values=_model_values(w, m2), tables=_model_tables(w, m2))
+                            if _well_conditioned(cj2['values'], cj2['tables']):
+                                cj = cj2
+                                stats['cross_models_reconditioned'] = stats.get('cross_models_reconditioned', 0) + 1
+                        if not _well_conditioned(cj['values'], cj['tables']):
+                            cj['ill'] = True
+                            stats['cross_models_ill_conditioned'] = stats.get('cross_models_ill_conditioned', 0) + 1
                     # a path model with values near/over the float range (clamped by model_value) is outside A-real:
                     # it cannot be replayed faithfully with floats, so it is not used as a native cross-check
                     big = [abs(x) for x in cj['values'].values()] + [abs(x) for t in cj['tables'].values()
@@ -246,6 +291,8 @@ def run_property(prop, tier='quick', jobs=None, seed=0, only=None, write_baselin
     t0 = time.time()
     jobs = jobs or min(16, os.cpu_count() or 4)
     evdir = os.environ.get('VERIF_EVIDENCE_DIR') or os.path.join(VERIF, 'evidence')
+    if (only or os.environ.get('VERIF_ONLY_CONFIG')) and not os.environ.get('VERIF_EVIDENCE_DIR'):
+        evdir = os.path.join(VERIF, '.scratch', 'evidence_partial')     # a filtered run never overwrites the evidence of the full check
     os.makedirs(evdir, exist_ok=True)
     groups = _load_contracts(prop)
     if only:
@@ -347,6 +394,11 @@ def run_property(prop, tier='quick', jobs=None, seed=0, only=None, write_baselin
         else:
             if res['skipped']:
                 cross_skipped += 1
+                continue
+            if r['cross'][idx].get('ill'):
+                # ill-conditioned model (outside A-real): rounding decides branches and lookups differently from the reals
+                if any(n in job[4] for n in res['failed']): cross_skipped += 1
+                else: cross_checked += 1
                 continue
             cross_checked += 1
             for n in res['failed']:
@@ -476,6 +528,8 @@ def run_property(prop, tier='quick', jobs=None, seed=0, only=None, write_baselin
         'vcs_discharged': sum(r['vcs'] for r in results),
         'configs': len(results), 'paths': sum(r['paths'] for r in results),
         'paths_cross_checked': cross_checked, 'cross_checks_skipped_rounding': cross_skipped,
+        'cross_models_reconditioned': sum(r['stats'].get('cross_models_reconditioned', 0) for r in results),
+        'cross_models_ill_conditioned': sum(r['stats'].get('cross_models_ill_conditioned', 0) for r in results),
         'canaries': canary_total, 'canaries_refuted': canary_refuted,
         'known_finding_obligations': len(known_obs),
         'bounded': [{'group': gname, 'functions': g.functions, 'inputs': sum(1 for b in b_results if b['group'] == gname),
